@@ -68,9 +68,11 @@ type Contract struct {
 	NoInline     bool
 	Opaque       bool // treat body as unavailable (verify callers against contract only)
 	Lets         []LetDef
+	Implementers []string // interface contracts: only implementations whose name contains one of these are checked
 	SetsPost     []LetDef // ghost := expr (evaluated in the post-state) after every call of this (interface) method
 	Sets         []LetDef // ghost := expr (evaluated in the pre-state) at every call site of this (interface) method
 	Counts       []string // ghost counters incremented at every call site of this (interface) method
+	PureResult   string // name of the logic function giving the first result as a function of the parameters
 	PureVerdict  string // name of the logic function giving "first error result is nil" as a function of the parameters
 	used         bool
 }
@@ -144,7 +146,7 @@ func normKey(k string) string {
 var clauseKw = map[string]bool{
 	"func": true, "spec": true, "requires": true, "ensures": true, "modifies": true, "loop": true,
 	"panics-unless": true, "macro": true, "ghost": true, "axiom": true, "swallows": true,
-	"noinline": true, "opaque": true, "pure-verdict": true, "counts": true, "sets": true, "sets-post": true, "let": true, "letold": true, "smt": true, "lemma": true,
+	"noinline": true, "opaque": true, "pure-verdict": true, "pure-result": true, "counts": true, "sets": true, "sets-post": true, "implementers": true, "let": true, "letold": true, "smt": true, "lemma": true,
 }
 
 type rawItem struct {
@@ -406,6 +408,10 @@ func (db *SpecDB) loadItems(items []rawItem, pkgPath string, trusted bool) {
 					cur.Sets = append(cur.Sets, LetDef{Name: strings.TrimSpace(rest[:j]), E: e})
 				}
 			}
+		case "implementers":
+			if cur != nil {
+				cur.Implementers = append(cur.Implementers, strings.Fields(rest)...)
+			}
 		case "counts":
 			if cur != nil {
 				cur.Counts = append(cur.Counts, strings.Fields(rest)...)
@@ -413,6 +419,10 @@ func (db *SpecDB) loadItems(items []rawItem, pkgPath string, trusted bool) {
 		case "pure-verdict":
 			if cur != nil {
 				cur.PureVerdict = strings.TrimSpace(rest)
+			}
+		case "pure-result":
+			if cur != nil {
+				cur.PureResult = strings.TrimSpace(rest)
 			}
 		case "noinline":
 			if cur != nil {
